@@ -152,6 +152,15 @@ def draw_structure(rng):
         later = types[i + 1:]
         if later and rng.random() < 0.85:
             desc["relations"][t] = rel(rng.sample(later, rng.randint(1, min(2, len(later)))))
+    if rng.random() < 0.25:
+        # a type that may contain itself (folder in folder); the count 0..1 keeps the
+        # expected depth small
+        t = rng.choice(types)
+        spec = attrs(2)
+        spec["t"] = {"fixed": t}
+        spec[":count"] = {"range": [0, 2], "p": 1.0}
+        desc["relations"].setdefault(t, {})[t] = spec
+        desc["recursive"] = t
     return desc
 
 
@@ -269,7 +278,7 @@ def check_value(name, a, val, present, macros, fail):
             if not isinstance(val, float):
                 fail("attr-date", f"{name}={val!r} is not a JS time stamp")
             d = datetime.fromtimestamp(val / 1000.0, tz=timezone.utc).date()
-            if not (lo <= d <= hi + timedelta(days=1)):
+            if not (lo <= d <= hi):  # (the stamp is the drawn day + 1 day, still <= max)
                 fail("attr-date", f"{name} stamp is {d}, declared range {lo}..{hi}")
         else:
             if not isinstance(val, date) or not (lo <= val <= hi):
